@@ -194,6 +194,29 @@ func loadDebDump(data []byte) (string, *deb.Deb) {
 	return "ok " + dumpLoadedDeb(d), d
 }
 
+// loadDebFileDump: the same bytes through deb.LoadFile
+func loadDebFileDump(data []byte) string {
+	f, err := os.CreateTemp("", "verif-*.deb")
+	if err != nil {
+		return "infrastructure"
+	}
+	defer os.Remove(f.Name())
+	f.Write(data)
+	f.Close()
+	d, closer, err := deb.LoadFile(f.Name())
+	if err != nil {
+		if d != nil {
+			return "err+value"
+		}
+		return "err"
+	}
+	defer closer()
+	if d.Path != f.Name() {
+		return "path-wrong"
+	}
+	return "ok " + dumpLoadedDeb(d)
+}
+
 func debDataDigest(d *deb.Deb) string {
 	var entries [][2]string
 	for {
@@ -232,6 +255,10 @@ var debImpl = map[string]core.Adapter{
 			if again != first {
 				return "nondeterministic " + first + " / " + again
 			}
+		}
+		// the file entry point must agree with the reader entry point
+		if viaFile := loadDebFileDump(data); viaFile != first {
+			return "loadfile-differs " + first + " / " + viaFile
 		}
 		return first
 	},
